@@ -69,6 +69,10 @@ CONTENTS = {
     "wrong-id": ["wrong"],
     "wrong-id-type": ["wrongtype"],
     "nonmsg": ["junk"],
+    # the SERVER's own request happens to carry the id of the client's pending request (ids are per direction): not an answer
+    "server-request-same-id": ["srvreq-same"],
+    "server-request-same-id+notif": ["srvreq-same", "notif"],
+    "server-request-same-id+response": ["srvreq-same", "resp"],
     "non-message+response": ["junk", "resp"],
 }
 
@@ -122,6 +126,8 @@ def srv_msg(kind, tag, rid):
         return {"jsonrpc": "2.0", "method": "notifications/progress", "params": {"k": tag}}
     if kind == "srvreq":
         return {"jsonrpc": "2.0", "id": f"s{tag}", "method": "sampling/createMessage", "params": {"k": tag}}
+    if kind == "srvreq-same":
+        return {"jsonrpc": "2.0", "id": base_id, "method": "sampling/createMessage", "params": {"k": tag}}
     if kind == "junk":
         return {"foo": 1, "k": tag}
     raise ValueError(kind)
@@ -632,6 +638,15 @@ def run_cases(ctx, scenarios, drv, sockets=False):
         ctx.case(case, nontrivial=nontrivial)
         ctx.count(f"len:{len(sc['steps'])}")
         ctx.count("transport:" + ("loopback-socket" if sockets else "MockTransport"))
+        if sockets:
+            # a silent server: the transport gives up after ITS timeout (0.3 s here), not when the server finally hangs up (12x later)
+            for st, o in zip(sc["steps"], ob["steps"]):
+                if st["ans"].get("exc") == "read-timeout" and o.get("posted"):
+                    ctx.spec_total += 1
+                    busy = o.get("busy_s")
+                    if busy is None or busy > ob["timeout"] * 2 + 1.2:
+                        ctx.spec_violation("silent-server-not-given-up-on-within-the-timeout", case,
+                                           f"configured timeout {ob['timeout']} s; the transport moved on after {busy} s")
         for st in sc["steps"]:
             a = st["ans"]
             ctx.count("req:" + st["req"])
